@@ -388,6 +388,14 @@ def replay_helper(w):
 def confirm(w):
     if w.get("kernel") == "helper":
         return replay_helper(w)
+    if tuple(w.get("build", ())) == cw.CFI_KEY:
+        # the driver generator has no Fortran-2018 descriptors: witnesses of the F_CFI library are confirmed by
+        # re-executing the compiled wrapper symbolically
+        a = driver.explore(("harness.wrapsym", "make", dict(build_key=list(cw.CFI_KEY), cname=w["function"], cap=w.get("cap", 4))), nworkers=1)
+        for v in a.violations:
+            if v["what"] == w["what"]:
+                return "re-execution of the compiled wrapper (no native driver for C descriptors): " + v["what"]
+        return ("re-execution of the compiled wrapper (no native driver for C descriptors): " + a.violations[0]["what"]) if a.violations else None
     return cw.replay_wrapper(w)
 
 
@@ -419,7 +427,7 @@ def main():
         for h in HELPERS:
             specs.append(("harness.C10", "make_helper", dict(lang=lang, helper=h, cap=cap)))
             labels.append("helper %s (%s)" % (h, lang))
-    wspecs, wlabels = cw.specs(cap, langs)
+    wspecs, wlabels = cw.specs(cap, langs + ["cfi"])
     specs += wspecs
     labels += wlabels
     accs = driver.explore_many(specs, split_depth=4, time_budget_s=900 if tier == "quick" else 5000, max_decisions=50000)
